@@ -21,3 +21,14 @@ def register(E):
         return VFloat(Z.fresh('time', Z.Flt))
 
     E.externals['time.time'] = time_model
+    register_urls(E)
+
+
+def register_urls(E):
+    def url_quote_model(I, ctx, s, charset=None, errors=None, safe=None, unsafe=None):
+        s = I.resolve(ctx, s)
+        f = Z.func('url_quote', Z.Str, Z.Str, Z.Str)
+        safe_z = safe.z if safe is not None else z3.StringVal('/:')
+        return VStr(f(s.z, safe_z))
+
+    E.externals['werkzeug.urls.url_quote'] = url_quote_model
